@@ -344,6 +344,24 @@ theorem forkArg_prekeyed {h : HV} (hk : h.key ≠ 0) (n m : Nat) : forkArg h n =
 theorem forkArg_inj {h : HV} (hk : h.key = 0) {n m : Nat} (he : forkArg h n = forkArg h m) : n = m := by
   simpa [forkArg, hk] using he
 
+/-- the driver's replay of an observed entry order is `enterAll` on the entries it went through -/
+theorem replay_eq (recount : Bool) (lanes : List Lane) (js : List Nat) (f : Forks) (acc : List Entry) :
+    replay recount lanes js f acc =
+      ((replayEntries recount lanes js f).foldl (enter recount) f, acc.reverse ++ replayEntries recount lanes js f) := by
+  induction js generalizing f acc with
+  | nil => simp [replay, replayEntries]
+  | cons j r ih => simp [replay, replayEntries, ih]
+
+theorem replay_enterAll (recount : Bool) (lanes : List Lane) (js : List Nat) :
+    (replay recount lanes js {} []).1 = enterAll recount (replayEntries recount lanes js {}) ∧
+    (replayEntries recount lanes js {}).map (·.sib) = js := by
+  constructor
+  · rw [replay_eq]; rfl
+  · generalize ({} : Forks) = f
+    induction js generalizing f with
+    | nil => rfl
+    | cons j r ih => simp [replayEntries, ih]
+
 /-! ### `fork_thread`: a child that has no call hash yet is not listed -/
 
 theorem kidHashes_length_unseen (le : H → H → Bool) (pre post : List JT) (k : JT) :
